@@ -5,7 +5,7 @@
    is tied to async_upnp_client/ssdp.py by the C01 correspondence check. *)
 From Coq Require Import List Bool NArith ZArith Lia ZifyBool ZifyN Permutation.
 From AUC Require Import Prelude.PyStr Prelude.PyDict Prelude.Utf8 C16.Model C16.Spec C16.Proofs
-  C03.Model C03.Spec C03.Bridge C01.Model C01.Spec C01.Roundtrip C13.Model C13.Spec C13.Accept Gen.Server.
+  C03.Model C03.Spec C03.Bridge C01.Model C01.Spec C01.Roundtrip C01.Adjust C13.Model C13.Spec C13.Accept Gen.Server.
 Import ListNotations.
 Local Open Scope N_scope.
 
@@ -99,7 +99,9 @@ Qed.
 Section Real.
   Variable url_of : pystr -> url_info.
   Variables (local_tok remote_tok : N) (a : addr).
-  Hypothesis Unscoped : a_v6 a = None.
+  (* the receiver hands every LOCATION on as sent: the sender's address carries no scope id, or the address oracle
+     reports no IPv6 link-local host (C01.Adjust: these are the only cases in which get_adjusted_url changes a URL) *)
+  Hypothesis Kept : forall url, adjusted_url url_of url a = url.
 
   (* the library's decoder (C01 model) applied to the datagram the server builds *)
   Definition real_dec (line : pystr) (items : list (pystr * pystr)) (now : Z) : hdrs :=
@@ -120,7 +122,7 @@ Section Real.
     set (A := map (fun kv : pystr * pystr => (lower (fst kv), HStr (snd kv))) items).
     match goal with |- context [map ?f items ++ [(k_host, _)] ++ _] =>
       replace (map f items) with A
-        by (apply map_ext; intros kv; unfold adjusted_url; rewrite Unscoped; destruct (_ && _); reflexivity)
+        by (apply map_ext; intros kv; rewrite Kept; destruct (_ && _); reflexivity)
     end.
     rewrite !map_app, !map_map. cbn [fst snd]. fold A.
     rewrite !(dget_app str_eqb A). destruct (dget str_eqb A lk) as [v|]; [reflexivity|].
@@ -154,3 +156,20 @@ Section Real.
     intros lk Hrd. rewrite Hg. now apply expected_view.
   Qed.
 End Real.
+
+(* the two situations in which the receiver keeps every LOCATION: an unscoped sender, or an address oracle that reports
+   no IPv6 link-local host (e.g. every IPv4 / named-host description URL, whatever the sender's scope) *)
+Definition location_kept (url_of : pystr -> url_info) (a : addr) : Prop :=
+  a_v6 a = None \/ (exists flow, a_v6 a = Some (flow, 0)) \/ forall url, u_link_local (url_of url) <> Some true.
+
+Lemma kept_adjusted url_of a : location_kept url_of a -> forall url, adjusted_url url_of url a = url.
+Proof.
+  intros [Hu|[[flow Hz]|Ho]] url.
+  - unfold adjusted_url. now rewrite Hu.
+  - unfold adjusted_url. rewrite Hz. reflexivity.
+  - now apply adjusted_kept.
+Qed.
+
+Theorem real_dec_premise_kept url_of local_tok remote_tok a :
+  location_kept url_of a -> decode_premise (real_dec url_of local_tok remote_tok a).
+Proof. intros H. apply real_dec_premise. now apply kept_adjusted. Qed.
